@@ -511,6 +511,7 @@ qlisttbl_data_t *qlisttbl_getmulti(qlisttbl_t *tbl, const char *name, bool newme
     qlisttbl_obj_t obj;
     memset((void *)&obj, 0, sizeof(obj)); // must be cleared before call
     qlisttbl_lock(tbl);
+    errno = 0;
     while (tbl->getnext(tbl, &obj, name, newmem) == true) {
         numfound++;
 
@@ -550,6 +551,13 @@ qlisttbl_data_t *qlisttbl_getmulti(qlisttbl_t *tbl, const char *name, bool newme
         newobj = &objs[numfound];
         memset((void *)newobj, '\0', sizeof(qlisttbl_data_t));
         newobj->type = 0;  // mark, end of objects
+    }
+    if (errno == ENOMEM && objs != NULL) {
+        // getnext() ran out of memory in the middle, don't hand out a
+        // partial result as if it were complete.
+        qlisttbl_freemulti(objs);
+        objs = NULL;
+        numfound = 0;
     }
     qlisttbl_unlock(tbl);
 
